@@ -53,7 +53,7 @@ def classify(code):
             res = 'anchor'          # per-version accessors, BASE_DATATYPES construction, module-level code
         elif (tail, code.co_name) in ANCHOR_FUNCS or (tail, getattr(code, 'co_qualname', '')) in ANCHOR_QUALNAMES:
             res = 'anchor'
-        elif tail in ('hl7apy/factories.py', 'hl7apy/__init__.py'):
+        elif tail in ('hl7apy/factories.py', 'hl7apy/__init__.py', 'hl7apy/mllp.py'):
             res = 'anchor'          # the modules owning the process-wide defaults, the library registry and the factories
         elif _touches_shared_state(code):
             res = 'anchor'          # any function reading/writing a module-level or cache-like class-level container
